@@ -96,6 +96,18 @@ impl Op {
     }
 }
 
+/// composite operations: (limbs, log_delta, plaintext budget, magnitude bits) per operand
+#[derive(Clone, Debug, Serialize, Deserialize)]
+pub struct CompCase {
+    pub be: Be,
+    pub pset: u8,
+    pub kind: u8,
+    pub n: u8,
+    pub dst_limbs: u8,
+    pub operands: Vec<(u8, u8, u8, u8)>,
+    pub seed: u64,
+}
+
 #[derive(Clone, Debug, Serialize, Deserialize)]
 pub struct Case {
     pub be: Be,
@@ -182,6 +194,128 @@ pub fn test_xb(c: &Case) -> Verdict {
 
 pub const RULE_C10: &str = "CKKS layer: cases = the straight-line programs of C16 with the FFT64 parameter set (radix 19 / 16, N 64 / 32) executed with identical keys, inputs and seeds on FFT64Ref, FFT64Avx, NTT120Ref, NTT120Avx; the final register files (metadata and raw digits of every ciphertext) must be identical. non-trivial = the program passes the C16 oracle on the reference backend.";
 
+pub fn test_composite(c: &CompCase) -> Verdict {
+    if c.operands.is_empty() {
+        return Verdict::pass(false, &["skipped:no_operands"]);
+    }
+    match c.be {
+        Be::FftRef => fft_ref::run_composite(c),
+        Be::FftAvx => fft_avx::run_composite(c),
+        Be::NttRef => ntt_ref::run_composite(c),
+        Be::NttAvx => ntt_avx::run_composite(c),
+    }
+}
+
+fn comp_strategy() -> BoxedStrategy<CompCase> {
+    (
+        prop_oneof![Just(Be::FftRef), Just(Be::FftAvx), Just(Be::NttRef), Just(Be::NttAvx)],
+        0u8..2,
+        0u8..9,
+        0u8..4,
+        1u8..=10,
+        prop::collection::vec((2u8..=8, 12u8..=44, 4u8..=12, any::<u8>()), 3..6),
+        any::<u64>(),
+    )
+        .prop_map(|(be, pset, kind, n, dst_limbs, operands, seed)| CompCase { be, pset, kind, n, dst_limbs, operands, seed })
+        .boxed()
+}
+
+/// slot encoding followed directly by decoding (no encryption): identity to within the element type's precision
+#[derive(Clone, Debug, Serialize, Deserialize)]
+pub struct RtCase {
+    pub quad: bool,
+    pub log_n: u8,
+    pub base2k: u8,
+    pub ld: u8,
+    pub lb: u8,
+    pub mag_bits: u8,
+    pub seed: u64,
+}
+
+fn roundtrip<F>(c: &RtCase, name: &'static str) -> Verdict
+where
+    F: num_traits::Float + num_traits::FloatConst + num_traits::FromPrimitive + num_traits::ToPrimitive + std::fmt::Debug,
+{
+    use poulpy_ckks::CKKSMeta;
+    use poulpy_ckks::encoding::reim::Encoder;
+    use poulpy_ckks::layouts::plaintext::{CKKSPlaintextConversion, CKKSPlaintextVecRnx, alloc_pt_vec_znx};
+    let n = 1usize << c.log_n.clamp(2, 9);
+    let m = n / 2;
+    let b = c.base2k.clamp(4, 52) as usize;
+    let max_ld = CKKSPlaintextVecRnx::<F>::max_log_delta_prec();
+    let ld = (c.ld as usize).clamp(6, max_ld + 4);
+    let lb = (c.lb as usize).clamp(3, 127usize.saturating_sub(ld).max(3));
+    let fail = |what: &str, d: String| Verdict::fail(format!("{name}|{what}"), format!("{name} N={n} base2k={b} log_delta={ld} log_budget={lb}: {d}\ncase={c:?}"));
+    // slot magnitudes up to a quarter of the budget
+    let mag = (((c.mag_bits as usize) % lb.saturating_sub(2).max(1)) as f64).exp2() * 0.9;
+    let mut st = c.seed | 1;
+    let mut next = || {
+        st ^= st << 13;
+        st ^= st >> 7;
+        st ^= st << 17;
+        (st >> 11) as f64 / (1u64 << 53) as f64 * 2.0 - 1.0
+    };
+    let re: Vec<F> = (0..m).map(|_| F::from_f64(next() * mag).unwrap()).collect();
+    let im: Vec<F> = (0..m).map(|_| F::from_f64(next() * mag).unwrap()).collect();
+    let enc = Encoder::<F>::new(m).unwrap();
+    let mut rnx = CKKSPlaintextVecRnx::<F>::alloc(n).unwrap();
+    if let Err(e) = enc.encode_reim(&mut rnx, &re, &im) {
+        return fail("encode-error", format!("{e}"));
+    }
+    let prec = CKKSMeta { log_delta: ld, log_budget: lb };
+    let mut pt = alloc_pt_vec_znx((n as u32).into(), (b as u32).into(), prec);
+    let r = match pzv_common::driver::guarded(|| rnx.to_znx(&mut pt)) {
+        Ok(r) => r,
+        Err(p) => return fail("panic", format!("to_znx panicked: {p}")),
+    };
+    if ld > max_ld || ld + lb > 127 {
+        // documented limits: an error value, never a panic or a silent wrap
+        return match r {
+            Err(_) => Verdict::pass(true, &[name, "rejected_beyond_element_precision"]),
+            Ok(()) => {
+                let mut back = CKKSPlaintextVecRnx::<F>::alloc(n).unwrap();
+                match back.decode_from_znx(&pt) {
+                    Err(_) => Verdict::pass(true, &[name, "rejected_beyond_element_precision"]),
+                    Ok(()) => fail("accepted-beyond-element-precision", format!("log_delta {ld} exceeds the element type's {max_ld} bits (or log_delta + log_budget > 127) and both conversions returned Ok")),
+                }
+            }
+        };
+    }
+    if let Err(e) = r {
+        return fail("unexpected-error", format!("to_znx failed inside the documented limits: {e}"));
+    }
+    let mut back = CKKSPlaintextVecRnx::<F>::alloc(n).unwrap();
+    match pzv_common::driver::guarded(|| back.decode_from_znx(&pt)) {
+        Ok(Ok(())) => {}
+        Ok(Err(e)) => return fail("unexpected-error", format!("decode_from_znx failed inside the documented limits: {e}")),
+        Err(p) => return fail("panic", format!("decode_from_znx panicked: {p}")),
+    }
+    let (mut re2, mut im2) = (vec![F::zero(); m], vec![F::zero(); m]);
+    enc.decode_reim(&back, &mut re2, &mut im2).unwrap();
+    // every coefficient is rounded to 2^-log_delta (half a unit each, N coefficients per slot) + floating-point error of the two transforms
+    let tol = n as f64 * (-(ld as f64)).exp2() + mag.max(1.0) * n as f64 * 64.0 * F::epsilon().to_f64().unwrap();
+    for i in 0..m {
+        let d = ((re2[i] - re[i]).to_f64().unwrap()).hypot((im2[i] - im[i]).to_f64().unwrap());
+        if !(d <= tol) {
+            return fail("roundtrip-differs", format!("slot {i}: ({:?}, {:?}) came back as ({:?}, {:?}); |diff| = {d:.3e} > {tol:.3e}", re[i], im[i], re2[i], im2[i]));
+        }
+    }
+    let mut cl = vec![name];
+    cl.push(if ld + lb > 63 { "wide_integer_path" } else { "i64_path" });
+    if mag >= (20f64).exp2() {
+        cl.push("magnitude>=2^20");
+    }
+    Verdict::pass(true, &cl)
+}
+
+pub fn test_roundtrip(c: &RtCase) -> Verdict {
+    if c.quad { roundtrip::<f128::f128>(c, "encode_decode_f128") } else { roundtrip::<f64>(c, "encode_decode_f64") }
+}
+
+fn rt_strategy() -> BoxedStrategy<RtCase> {
+    (any::<bool>(), 2u8..=9, 4u8..=52, 6u8..=120, 3u8..=60, any::<u8>(), any::<u64>()).prop_map(|(quad, log_n, base2k, ld, lb, mag_bits, seed)| RtCase { quad, log_n, base2k, ld, lb, mag_bits, seed }).boxed()
+}
+
 fn mem_only(f: fn(&Case) -> Verdict) -> impl Fn(&Case) -> Verdict + Sync {
     move |c| match f(c) {
         Verdict::Fail { sig, .. } if !sig.contains("guard-damaged") => Verdict::pass(false, &["value_oracle_or_panic_ignored_here"]),
@@ -217,7 +351,7 @@ fn strategy() -> BoxedStrategy<Case> {
         .boxed()
 }
 
-pub const RULE: &str = "cases = (backend, one of two parameter sets per family (radix 19/16 for FFT64, 52/30 for NTT120; N = 64/32; key dsize 1/2), a straight-line program: two fresh encryptions (independent limb counts 3..8, log_delta 14..44, plaintext budget 5..11, generated slot values) followed by 1..13 generated steps over a 4-register file among: encrypt (plaintext budget up to 34 bits, slot magnitudes up to 2^31, so that both integer widths of the encoder / decoder occur), add/sub/mul (into a destination of 1..10 limbs or in place), neg, square, add / sub / mul with an encoded plaintext vector or a complex constant (RNX forms, independent plaintext precision), mul_pow2, div_pow2, rotate (keys present for some rotations, absent for others), conjugate, rescale, align, compact_limbs (result must have the minimum limb count), reallocate_limbs). Oracle after every step: Result matches the model of the budget algebra (Ok, or the expected CKKSCompositionError kind; never a panic; metadata unchanged when an in-place step fails), (log_delta, log_budget) equal the model, log_delta + log_budget <= stored precision, and every live register decrypts and decodes to the shadow program on complex f64 within the tracked worst-case error bound (proportional to 2^-log_delta). non-trivial = at least two executed steps after adaptation.";
+pub const RULE: &str = "cases = (backend, one of two parameter sets per family (radix 19/16 for FFT64, 52/30 for NTT120; N = 64/32; key dsize 1/2), a straight-line program: two fresh encryptions (independent limb counts 3..8, log_delta 14..44, plaintext budget 5..11, generated slot values) followed by 1..13 generated steps over a 4-register file among: encrypt (plaintext budget up to 34 bits, slot magnitudes up to 2^31, so that both integer widths of the encoder / decoder occur), add/sub/mul (into a destination of 1..10 limbs or in place), neg, square, add / sub / mul with an encoded plaintext vector or a complex constant (RNX forms, independent plaintext precision), mul_pow2, div_pow2, rotate (keys present for some rotations, absent for others), conjugate, rescale, align, compact_limbs (result must have the minimum limb count), reallocate_limbs). Oracle after every step: Result matches the model of the budget algebra (Ok, or the expected CKKSCompositionError kind; never a panic; metadata unchanged when an in-place step fails), (log_delta, log_budget) equal the model, log_delta + log_budget <= stored precision, and every live register decrypts and decodes to the shadow program on complex f64 within the tracked worst-case error bound (proportional to 2^-log_delta). non-trivial = at least two executed steps after adaptation. Sub-check composite_ops: multiply-add / multiply-subtract with a ciphertext, an encoded vector or a constant (six forms) must equal, bit for bit and in their Result, the product into a buffer shaped like the destination followed by the in-place sum; ckks_add_many (1..4 inputs) against the chain of two-operand additions (Result, metadata) and the f64 sum; ckks_dot_product_ct (1..4 pairs, one log_delta per side) against the model of the budget algebra and the f64 dot product; ckks_mul_many (1..4 factors) against invariants and the f64 product. Sub-check encode_decode_roundtrip: slot encoding -> to_znx -> decode_from_znx -> slot decoding for f64 and f128, N 4..512, radix 4..52, log_delta 6..120, log_budget 3..60, magnitudes up to a quarter of the budget: identity within N*2^-log_delta + 64*N*eps*magnitude, and an error value (never a panic or a wrapped value) beyond the element type's precision.";
 
 fn main() {
     install_panic_hook();
@@ -229,6 +363,12 @@ fn main() {
     if args[0] == "replay" {
         let (prop, sub, case) = read_replay(&args[1]);
         let ctx = DCtx::from_args(&prop, &[]);
+        if sub == "encode_decode_roundtrip" {
+            std::process::exit(ctx.replay_case::<RtCase, _>(&sub, &case, test_roundtrip));
+        }
+        if sub == "composite_ops" {
+            std::process::exit(ctx.replay_case::<CompCase, _>(&sub, &case, test_composite));
+        }
         if prop == "C12" {
             std::process::exit(ctx.replay_case::<Case, _>(&sub, &case, test_c12));
         }
@@ -275,6 +415,8 @@ fn main() {
     let ctx = DCtx::from_args(&prop, &args[1..]);
     let t = ctx.tier;
     ctx.run_sub("programs", t.pick(30_000, 1_000_000), 64, strategy, test);
+    ctx.run_sub("composite_ops", t.pick(12_000, 300_000), 64, comp_strategy, test_composite);
+    ctx.run_sub("encode_decode_roundtrip", t.pick(20_000, 400_000), 64, rt_strategy, test_roundtrip);
     let code = ctx.finish(
         RULE,
         &[
